@@ -92,7 +92,7 @@ type c13Stream struct{}
 func (c13Stream) Name() string               { return "c13" }
 func (c13Stream) CaseTimeout() time.Duration { return 60 * time.Second }
 func (c13Stream) Rule() string {
-	return "K sessions in parallel (1..8) through a recording TCP forwarder: a conforming client first issues 0..3 plain requests, then sends StartTLS, the handler waits D1 ms before its reply and D2 ms between the reply and Request.StartTLS (0..40 ms each, occasionally 1.3 s), the client starts its handshake the moment the reply arrives (so its ClientHello is in the socket while the handler is still running), then issues N requests inside the tunnel, sequentially or pipelined, occasionally after 6 s of silence; oracle: the handshake succeeds, every request in the tunnel is answered correctly and numbered after the StartTLS request, and every byte the server sent after the StartTLS reply parses as TLS records; trace replayed through the connection automaton; non-trivial = D1 + D2 > 0 or pipelined requests, distinct by scenario"
+	return "K sessions in parallel (1..8) through a recording TCP forwarder: a conforming client first issues 0..3 plain requests, then sends StartTLS, the handler waits D1 ms before its reply and D2 ms between the reply and Request.StartTLS (0..40 ms each, occasionally 1.3 s), the client starts its handshake the moment the reply arrives (so its ClientHello is in the socket while the handler is still running), then issues N requests inside the tunnel, sequentially or pipelined, occasionally after 6 s of silence; optionally with all clients waiting for every StartTLS reply before any handshake, with Stop called while the tunnels are busy, or (for the race detector only) with a slow request still in flight when StartTLS is served; oracle: the handshake succeeds, every request in the tunnel is answered correctly and numbered after the StartTLS request, and every byte the server sent after the StartTLS reply parses as TLS records; trace replayed through the connection automaton; non-trivial = D1 + D2 > 0 or pipelined requests, distinct by scenario"
 }
 
 func (c13Stream) Generate(rng *rand.Rand, n int, thorough bool) []Case {
@@ -107,8 +107,17 @@ func (c13Stream) Generate(rng *rand.Rand, n int, thorough bool) []Case {
 		case 2:
 			idle = 6000 // a session that stays quiet for a while after the upgrade
 		}
-		cs = append(cs, Case{Line: fmt.Sprintf("c13 sessions=%d pre=%d before=%d after=%d post=%d pipelined=%d idle=%d", []int{1, 2, 4, 8}[rng.Intn(4)],
-			[]int{0, 0, 1, 3}[rng.Intn(4)], before, after, 1+rng.Intn(6), rng.Intn(2), idle), Kind: "starttls"})
+		barrier, stop, overlap := 0, 0, 0
+		switch rng.Intn(10) {
+		case 0, 1:
+			barrier = 1 // every client waits until all have their StartTLS reply before any starts its handshake
+		case 2:
+			stop = 1 // Stop is called while the upgraded sessions are still sending requests
+		case 3:
+			overlap = 1 // (race detector only) a slow request is still in flight when StartTLS is served
+		}
+		cs = append(cs, Case{Line: fmt.Sprintf("c13 sessions=%d pre=%d before=%d after=%d post=%d pipelined=%d idle=%d barrier=%d stop=%d overlap=%d", []int{1, 2, 4, 8}[rng.Intn(4)],
+			[]int{0, 0, 1, 3}[rng.Intn(4)], before, after, 1+rng.Intn(6), rng.Intn(2), idle, barrier, stop, overlap), Kind: "starttls"})
 	}
 	return cs
 }
@@ -117,11 +126,16 @@ func (c13Stream) Impl(c Case) string {
 	p := kv(c.Line)
 	k, post, pre, idle := atoi(p["sessions"]), atoi(p["post"]), atoi(p["pre"]), atoi(p["idle"])
 	tlsConfigs()
+	if p["overlap"] == "1" {
+		return c13Overlap(k)
+	}
 	rc := &recorder{}
 	h := func(w *gldap.ResponseWriter, r *gldap.Request) {
 		rc.enter(r)
 		answer(w, r)
 	}
+	var barrier sync.WaitGroup
+	barrier.Add(k)
 	mux := allRoutes(h, startTLSHandler(srvTLS, time.Duration(atoi(p["before"]))*time.Millisecond, time.Duration(atoi(p["after"]))*time.Millisecond), nil)
 	sut, err := startServer(mux, nil, nil)
 	if err != nil {
@@ -142,6 +156,9 @@ func (c13Stream) Impl(c Case) string {
 		mu.Unlock()
 	}
 	var wg sync.WaitGroup
+	var stopOnce sync.Once
+	var allUp sync.WaitGroup
+	allUp.Add(k)
 	replyLen := make([]int, k)
 	for s := 0; s < k; s++ {
 		wg.Add(1)
@@ -179,6 +196,17 @@ func (c13Stream) Impl(c Case) string {
 			if len(cl.buf) != 0 {
 				fail("the server sent plaintext after the StartTLS response")
 				return
+			}
+			if p["barrier"] == "1" {
+				barrier.Done()
+				bw := make(chan struct{})
+				go func() { barrier.Wait(); close(bw) }()
+				select {
+				case <-bw:
+				case <-time.After(8 * time.Second):
+					fail("sessions wait for one another: not every StartTLS request was answered while the others had not yet begun their handshakes")
+					return
+				}
 			}
 			cfg := cliTLS.Clone()
 			cfg.ServerName = "localhost"
@@ -229,6 +257,31 @@ func (c13Stream) Impl(c Case) string {
 					fail("%d distinct responses for %d pipelined requests inside the tunnel", len(seen), post)
 				}
 			}
+			if p["stop"] == "1" {
+				// keep the tunnel busy while the server is stopped; whatever the server still sends must be TLS.
+				// Stop is called only once every session has completed its upgrade (a Stop that interrupts a
+				// handshake makes that upgrade fail, which is not this property's business)
+				allUp.Done()
+				upc := make(chan struct{})
+				go func() { allUp.Wait(); close(upc) }()
+				select {
+				case <-upc:
+				case <-time.After(15 * time.Second):
+					return
+				}
+				stopOnce.Do(func() { go sut.stop(10 * time.Second) })
+				for j := 0; j < 2000; j++ {
+					if err := tcl.send(opFrame("search", int64(5000+j))); err != nil {
+						break
+					}
+					if j%8 == 7 {
+						if _, err := tcl.readFrame(2 * time.Second); err != nil {
+							break
+						}
+					}
+				}
+				time.Sleep(50 * time.Millisecond)
+			}
 			_ = tc.Close()
 		}(s)
 	}
@@ -244,6 +297,9 @@ func (c13Stream) Impl(c Case) string {
 		rc.mu.Unlock()
 		for cid, es := range byConn {
 			for _, e := range es {
+				if e.msgID >= 5000 {
+					continue
+				}
 				want := int(e.msgID-100) + 2 + pre
 				if e.msgID < 100 {
 					want = int(e.msgID-50) + 1
@@ -252,7 +308,13 @@ func (c13Stream) Impl(c Case) string {
 					fail("conn %d: request with message id %d has Request.ID %d, want %d", cid, e.msgID, e.reqID, want)
 				}
 			}
-			if len(es) != post+pre {
+			nes := 0
+			for _, e := range es {
+				if e.msgID < 5000 {
+					nes++
+				}
+			}
+			if nes != post+pre {
 				fail("conn %d: %d handlers for %d plain and %d tunnel requests", cid, len(es), pre, post)
 			}
 		}
@@ -286,6 +348,50 @@ func (c13Stream) Impl(c Case) string {
 	}
 	sut.finish()
 	return verdict + "\t" + traceString(sut.tr.Snapshot(), "conn.", "loop.", "req.")
+}
+
+// c13Overlap: for the race detector only. A slow request is still being handled when the StartTLS request behind it
+// is served (RFC 4511 forbids this to clients, so nothing is judged but the absence of a data race or crash).
+func c13Overlap(k int) string {
+	h := func(w *gldap.ResponseWriter, r *gldap.Request) {
+		time.Sleep(15 * time.Millisecond)
+		answer(w, r)
+	}
+	sut, err := startServer(allRoutes(h, startTLSHandler(srvTLS, 0, 5*time.Millisecond), nil), nil, nil)
+	if err != nil {
+		return "harness-error start: " + err.Error()
+	}
+	var wg sync.WaitGroup
+	for s := 0; s < k; s++ {
+		wg.Add(1)
+		go func() {
+			defer wg.Done()
+			raw, err := net.DialTimeout("tcp", sut.addr, 3*time.Second)
+			if err != nil {
+				return
+			}
+			defer raw.Close()
+			cl := &rawClient{c: raw}
+			_ = cl.send(append(append(opFrame("search", 10), opFrame("bind", 11)...), opFrame("starttls", 12)...))
+			for i := 0; i < 3; i++ {
+				if _, err := cl.readFrame(300 * time.Millisecond); err != nil {
+					break
+				}
+			}
+			cfg := cliTLS.Clone()
+			cfg.ServerName = "localhost"
+			tc := tls.Client(raw, cfg)
+			_ = tc.SetDeadline(time.Now().Add(500 * time.Millisecond))
+			if tc.Handshake() == nil {
+				tcl := &rawClient{c: tc}
+				_ = tcl.send(opFrame("search", 20))
+				_, _ = tcl.readFrame(300 * time.Millisecond)
+			}
+		}()
+	}
+	wg.Wait()
+	sut.finish()
+	return "ok\t"
 }
 
 func (c13Stream) ModelLine(c Case, trace string) string { return "trace conn " + trace }
